@@ -2,6 +2,7 @@ package compiler
 
 import (
 	"encoding/binary"
+	"errors"
 	"fmt"
 	"github.com/glyphlang/glyph/pkg/ast"
 	"math"
@@ -22,8 +23,9 @@ func (e *SemanticError) Error() string {
 
 // IsSemanticError checks if an error is a semantic error
 func IsSemanticError(err error) bool {
-	_, ok := err.(*SemanticError)
-	return ok
+	// Errors from nested constructs arrive wrapped ("for loop body: %w")
+	var semErr *SemanticError
+	return errors.As(err, &semErr)
 }
 
 // loopContext tracks the compiler state for the current loop, used for
